@@ -7,6 +7,7 @@
   convergence itself (exercised on the implementation with a forward-mapping oracle).
 -/
 import GwcsModel.Solver
+import GwcsProofs.C05b
 import Mathlib.Tactic.FieldSimp
 import Mathlib.Tactic.Ring
 import Mathlib.Tactic.Linarith
